@@ -21,7 +21,8 @@ Inductive expr :=
   | EIf (c a b : expr)
   | EList (es : list expr) | ETuple (es : list expr) | EDict (kvs : list (expr * expr))
   | EIndex (a i : expr) | ETupleAt (a : expr) (n : nat)
-  | ECast (b : base) (e : expr).
+  | ECast (b : base) (e : expr)
+  | EComp (v : nat) (proj iter : expr) (cond : option expr).   (* [proj for v in iter if cond] *)
 
 Definition base_eqb (a b : base) : bool :=
   match a, b with BInt, BInt | BFloat, BFloat | BBool, BBool | BStr, BStr | BNone, BNone => true | _, _ => false end.
@@ -43,6 +44,13 @@ Definition class_of (t : ty) : option str :=
 Definition ty_name (t : ty) : str := match t with TB b => base_name b | _ => [] end.
 Definition op_token (o : aop) : str :=
   match o with OAdd => s "+" | OSub => s "-" | OMul => s "*" | ODiv => s "/" | OMod => s "%" | OAnd => s "&" | OOr => s "|" | OXor => s "^" | OShl => s "<<" | OShr => s ">>" end.
+
+Definition upd {A} (f : nat -> A) (v : nat) (x : A) : nat -> A := fun n => if Nat.eqb n v then x else f n.
+(* what iterating over a value of that type yields *)
+Definition iter_ty (t : ty) : option ty :=
+  match t with TList e => Some e | TDict k _ => Some k | _ => None end.     (* the str stub has no __iter__: nothing is inferred for `for c in s` *)
+Definition iter_rty (r : rty) : list rty :=
+  match r with RList es => es | RDict ks _ => ks | RB BStr => [RB BStr] | _ => [] end.
 
 Section Infer.
 (* generated: class -> [(dunder, parameter types, return type)], operator -> dunder, arithmetical operators *)
@@ -127,6 +135,20 @@ Fixpoint infer (G : nat -> option ty) (e : expr) : option ty :=
       end
   | ETupleAt a n => match infer G a with Some (TTuple ts) => nth_error ts n | _ => None end
   | ECast b e => match infer G e with Some _ => match b with BNone => None | _ => Some (TB b) end | None => None end
+  | EComp v proj iter cond =>
+      match infer G iter with
+      | Some ti =>
+          match iter_ty ti with
+          | Some te =>
+              let G2 := upd G v (Some te) in
+              match (match cond with Some c => infer G2 c | None => Some (TB BBool) end), infer G2 proj with
+              | Some _, Some tp => Some (TList tp)          (* on_list_comp: list<projection> *)
+              | _, _ => None
+              end
+          | None => None
+          end
+      | None => None
+      end
   end.
 End Infer.
 
@@ -195,6 +217,8 @@ Fixpoint dyn (R : nat -> rty) (e : expr) : list rty :=
       end
   | ETupleAt a n => somes (map (fun x => match x with RTuple ts => nth_error ts n | _ => None end) (dyn R a))
   | ECast b e => match dyn R e with [] => [] | _ => [RB b] end
+  | EComp v proj iter cond =>
+      [RList (flat_map (fun ri => flat_map (fun re => dyn (upd R v re) proj) (iter_rty ri)) (dyn R iter))]
   end.
 
 Fixpoint has_type (r : rty) (t : ty) {struct t} : bool :=
@@ -242,5 +266,13 @@ Fixpoint guard (G : nat -> option ty) (e : expr) : bool :=
   | EIndex a i => guard G a && guard G i
   | ETupleAt a _ => guard G a
   | ECast _ a => guard G a
+  | EComp v proj iter cond =>
+      guard G iter && match infer' G iter with
+                      | Some ti => match iter_ty ti with
+                                   | Some te => guard (upd G v (Some te)) proj && match cond with Some c => guard (upd G v (Some te)) c | None => true end
+                                   | None => true
+                                   end
+                      | None => true
+                      end
   end.
 End Guard.
